@@ -464,6 +464,48 @@ def twins_prop(a, b):
     return None
 
 
+# three pairwise unequal elements whose leading collections are an int / the
+# equal decimal / a larger int: the order of collections among themselves must
+# agree with their equality, or the elements form a cycle
+NESTED_TWINS = [
+    ["[<<1>>, 0]", "[<<10>>, 0]", "[<<1.0>>, 1]"],
+    ["[<<<0 => 1>>>, 0]", "[<<<0 => 10>>>, 0]", "[<<<0 => 1.0>>>, 1]"],
+    ["[<*a = 1*>, 0]", "[<*a = 10*>, 0]", "[<*a = 1.0*>, 1]"],
+    ["[[<<2>>], 'a']", "[[<<2.0>>], 'b']", "[[<<12>>], 'a']"],
+]
+
+
+def nested_twins_prop(elems, as_keys=False):
+    import itertools as _it
+    texts = {}
+    for perm in _it.permutations(elems):
+        lit = ("<<< " + ", ".join(f"({e}) => 1" for e in perm) + " >>>") \
+            if as_keys else ("<< " + ", ".join(perm) + " >>")
+        src = f"def v = {lit}; def t = string(v); " \
+              f"[t, eval(t) == v, string(eval(t)) == t]"
+        out = cklrun.run(src, budget=20)
+        if out[0] != "value":
+            return Finding(f"C08|nested-twins|{out[0]}",
+                           f"{src} -> {cklrun.short(out)}")
+        t, same, fixed = cklrun.to_model(out[1])
+        if same is not True:
+            return Finding("C08|roundtrip|value-differs|nested-twins",
+                           f"{src}: the text {t!r} evaluates to another value")
+        if fixed is not True:
+            return Finding("C08|equal-collections-render-differently|"
+                           "collections-ordered-by-text",
+                           f"{src}: the text {t!r} evaluates to an equal "
+                           f"value that renders differently")
+        texts.setdefault(t, lit)
+    if len(texts) > 1:
+        shown = "; ".join(f"{l} -> {t}" for t, l in list(texts.items())[:3])
+        return Finding("C08|equal-collections-render-differently|"
+                       "collections-ordered-by-text",
+                       f"one set written in six orders has {len(texts)} "
+                       f"texts: {shown}")
+    return None
+
+
 REBIND = [
     "do eval('NULL = 0') catch all 0 end",
     "do eval('def NULL = 1') catch all 0 end",
@@ -534,6 +576,14 @@ def part_twins(part):
         part.cls("rebinding-scoped", tmpl)
         part.collect(scoped_rebind_prop(tmpl),
                      {"kind": "rebind-scoped", "template": tmpl})
+    for k, elems in enumerate(NESTED_TWINS):
+        for as_keys in (False, True):
+            part.count()
+            part.distinct()
+            part.cls("nested-twins", elems[0])
+            part.collect(nested_twins_prop(elems, as_keys),
+                         {"kind": "nested-twins", "index": k,
+                          "as_keys": as_keys})
     for a, b in TWINS:
         part.count()
         part.distinct()
@@ -546,6 +596,9 @@ def prop(case):
     k = case["kind"]
     if k == "twins":
         return twins_prop(case["a"], case["b"])
+    if k == "nested-twins":
+        return nested_twins_prop(NESTED_TWINS[case["index"]],
+                                 case.get("as_keys", False))
     if k == "rebind-scoped":
         return scoped_rebind_prop(case["template"])
     if k == "rebind":
